@@ -48,6 +48,20 @@ def own_body(ctx: H.BaseCtx):
                 except Exception:
                     pass
                 check_unmodified(ctx, ops, snap, what="argument of %s" % f)
+            # where= masks (no out=): the operands must not be used as the output buffer
+            bshape = numpy.broadcast_shapes(a.shape, b.shape)
+            mask = (numpy.arange(S.size_of(bshape)).reshape(bshape) % 2 == 0) if bshape else numpy.array(True)
+            for f in ("add", "subtract", "multiply", "equal", "not_equal"):
+                try:
+                    getattr(numpoly, f)(a, b, where=mask)
+                except Exception:
+                    pass
+                check_unmodified(ctx, ops, snap, what="argument of %s(where=mask)" % f)
+                try:
+                    getattr(numpy, f)(a, b, where=mask)
+                except Exception:
+                    pass
+                check_unmodified(ctx, ops, snap, what="argument of numpy.%s(where=mask)" % f)
             for opname, f in (("/", lambda: a / b), ("%", lambda: a % b), ("divmod", lambda: divmod(a, b)), ("**2", lambda: a ** 2), ("@", lambda: a @ b)):
                 if opname in ("/", "%", "divmod") and case.get("nodiv"):
                     continue
@@ -104,6 +118,13 @@ def own_body(ctx: H.BaseCtx):
                     pass
                 check_unmodified(ctx, [a, b], tsnap, what="source argument of %s" % name)
         elif fn == "unary-all":
+            mask = (numpy.arange(a.size).reshape(a.shape) % 2 == 0) if a.shape else numpy.array(True)
+            for f in ("negative", "positive", "absolute", "square"):
+                try:
+                    getattr(numpoly, f)(a, where=mask)
+                except Exception:
+                    pass
+                check_unmodified(ctx, ops, snap, what="argument of %s(where=mask)" % f)
             for f in ("negative", "positive", "absolute", "square", "sum", "cumsum", "prod", "mean", "any", "all", "count_nonzero", "nonzero", "isfinite",
                       "lead_exponent", "lead_coefficient", "sortable_proxy", "decompose", "gradient", "hessian", "isconstant", "ravel", "transpose", "diff",
                       "amax", "amin", "argmax", "argmin", "atleast_2d", "ones_like", "zeros_like", "polynomial", "aspolynomial", "clean_attributes"):
